@@ -518,6 +518,7 @@ def build_b(seed):
             # then completes (same file rewritten in place) and the same path is added again
             plan[i] = dict(plan[i], route=prng.choice(['xml', 'pkg']),
                            repair=prng.random() < 0.5)
+            plan[i].pop('siblings', None)     # (a single file or package, not a collection)
         plan[i] = dict(plan[i], fault=f)
     return u, plan
 
